@@ -17,6 +17,7 @@ Reference model: models/crowsetta_model.py (the docstring cascades transcribed s
 from __future__ import annotations
 
 import itertools
+import warnings
 from fractions import Fraction as F
 from math import floor
 
@@ -217,6 +218,9 @@ def mk_segment(el, unit, fsr, label):
 
 def mk_bbox(el, label):
     on, off, lo, hi = el
+    if all(float(v) == int(v) for v in el) and int(on + off) % 2 == 0:
+        # whole numbers handed over as Python ints (what a CSV reader that infers integer columns produces)
+        return crowsetta.BBox(onset=int(on), offset=int(off), low_freq=int(lo), high_freq=int(hi), label=label)
     return crowsetta.BBox(onset=float(on), offset=float(off), low_freq=float(lo), high_freq=float(hi), label=label)
 
 
@@ -674,6 +678,13 @@ def run_label(case):
     rtags = [xreal(t) for t in atags]
     real, mod = label_kwargs(o)
     r = call(cr.label_from_tags, rtags, **real)
+    # the same call in a process that turns DeprecationWarning into an error (python -W error::DeprecationWarning, pytest's
+    # filterwarnings=error): the tags were built with term=, so the export must not trip over the library's own deprecations
+    with warnings.catch_warnings():
+        warnings.simplefilter("error", DeprecationWarning)
+        r_strict = call(cr.label_from_tags, rtags, **real)
+    out.expect("same_result_with_deprecations_as_errors", tuple(r_strict) == tuple(r), list(r_strict), list(r),
+               {"fn": "label_from_tags", "kind": "strict_warnings"}, {"options": o})
     acceptable, step = cm.label_from_tags(atags, **mod)
     cell = label_cell(o, step, atags, mod["tag_kwargs"])
     out.expect("label_equals_model", r[0] == "ok" and r[1] in acceptable, list(r), ["ok", acceptable],
